@@ -298,6 +298,7 @@ def check_repo_import():
     import joblib
 
     path = os.path.realpath(joblib.__file__)
-    if not path.startswith("/repo/"):
-        raise HarnessError("joblib imported from %s, not /repo" % path)
+    want = os.path.realpath(os.environ.get("VF_REPO", "/repo")) + "/"
+    if not path.startswith(want):
+        raise HarnessError("joblib imported from %s, not %s" % (path, want))
     return path
